@@ -37,3 +37,7 @@ Definition enc_sres (r : sres) : list Z :=
   end.
 Definition enc_strace (t : list (sres * list Z)) : list Z :=
   flat_map (fun x => enc_sres (fst x) ++ enc_l (snd x)) t.
+
+Definition enc_m2trace (t : list (mres * (list Z * list (Z * list Z)) * (list Z * list (Z * list Z)))) : list Z :=
+  flat_map (fun x => enc_mres (fst (fst x)) ++ enc_l (fst (snd (fst x))) ++ enc_lps (snd (snd (fst x)))
+                     ++ enc_l (fst (snd x)) ++ enc_lps (snd (snd x))) t.
